@@ -63,8 +63,8 @@ def terminals_lines(text, pairs):
 
 def tiger_record(text):
     try:
-        root = ET.fromstring(text.encode('utf-8'))
-    except ET.ParseError:
+        root = ET.fromstring(text if isinstance(text, bytes) else text.encode('utf-8'))
+    except (ET.ParseError, LookupError, ValueError):
         return {'ok': 'F', 'sents': []}
     sents = []
     body = root.find('body')
@@ -298,12 +298,14 @@ def run_reader(mods, fmt, path, enc, params, atoms=None):
 
 
 def reader_params(opts, sep, firstid):
-    p = {o: True for o in opts}
+    """reader options as the command line hands them over: `key` / `key:value` strings through the
+    tool's own misc.options_dict (so that the option path of the CLI is part of what is exercised)"""
+    strs = []
+    for o in opts:
+        strs.append('brackets_firstid:%d' % firstid if o == 'brackets_firstid' else o)
     if sep != '-':
-        p['gf_separator'] = sep
-    if 'brackets_firstid' in p:
-        p['brackets_firstid'] = firstid
-    return p
+        strs.append('gf_separator:%s' % sep)
+    return treeio.repo_modules()['misc'].options_dict(strs)
 
 
 def record_tokens_case(cid, toks, opts, mods, seed, origin='tlc'):
@@ -334,7 +336,7 @@ def record_corpus_case(cid, Ts, fmt, opts, sep, mods, seed, origin='tlc'):
     s0 = rnd.choice([1, 7, 500])
     for k in range(len(Ts)):
         sids.append(s0 + k * rnd.choice([1, 1, 3]))
-    firstid = rnd.choice([1, 42]) if 'brackets_firstid' in opts else 1
+    firstid = rnd.choice([0, 1, 42]) if 'brackets_firstid' in opts else 1
     enc = rnd.choice(['utf-8', 'utf-8', 'latin-1']) if fmt != 'tigerxml' else 'utf-8'
     gz = fmt != 'tigerxml' and rnd.random() < 0.3
     inputs = []
